@@ -5,7 +5,11 @@ transcript = {"id", "seqid", "start", "end", "strand", "score", "attrs": [[k, [v
 child      = {"type", "start", "end"}
 opts       = {"block": str|[str], "thick": str|[str]|None, "thin": str|[str]|None, "name_field": str, "color": str|None}
 """
-COMPLEMENT = {"A": "T", "C": "G", "G": "C", "T": "A", "N": "N", "a": "t", "c": "g", "g": "c", "t": "a", "n": "n"}
+# Watson-Crick complement, including the IUPAC ambiguity codes (R<->Y, K<->M, B<->V, D<->H; S, W, N self-complementary)
+_PAIRS = {"A": "T", "C": "G", "G": "C", "T": "A", "N": "N", "R": "Y", "Y": "R", "K": "M", "M": "K", "B": "V", "V": "B",
+          "D": "H", "H": "D", "S": "S", "W": "W"}
+COMPLEMENT = dict(_PAIRS)
+COMPLEMENT.update({k.lower(): v.lower() for k, v in _PAIRS.items()})
 
 
 def expected_sequence(seq, start, end, strand, use_strand=True):
